@@ -98,20 +98,20 @@ func sharedTypes(p *core.Program) map[string]*types.Named {
 // c09InterfaceImpls: interface-typed fields of shared structs and the packages whose structs can sit behind them in a
 // loaded definition / asset collection.
 var c09InterfaceImpls = map[string][]string{
-	"flows.FlowAssets":     {"flows/definition"},
-	"flows.Flow":           {"flows/definition"},
-	"flows.Node":           {"flows/definition"},
-	"flows.Exit":           {"flows/definition"},
-	"flows.Localization":   {"flows/definition"},
-	"flows.Action":         {"flows/actions"},
-	"flows.Router":         {"flows/routers"},
-	"flows.Category":       {"flows/routers"},
-	"flows.Wait":           {"flows/routers/waits"},
-	"flows.Timeout":        {"flows/routers/waits"},
-	"flows.Hint":           {"flows/routers/waits/hints"},
-	"contactql.QueryNode":  {"contactql"},
-	"contactql.Resolver":   {},
-	"flows.SessionAssets":  {"flows/engine"},
+	"flows.FlowAssets":      {"flows/definition"},
+	"flows.Flow":            {"flows/definition"},
+	"flows.Node":            {"flows/definition"},
+	"flows.Exit":            {"flows/definition"},
+	"flows.Localization":    {"flows/definition"},
+	"flows.Action":          {"flows/actions"},
+	"flows.Router":          {"flows/routers"},
+	"flows.Category":        {"flows/routers"},
+	"flows.Wait":            {"flows/routers/waits"},
+	"flows.Timeout":         {"flows/routers/waits"},
+	"flows.Hint":            {"flows/routers/waits/hints"},
+	"contactql.QueryNode":   {"contactql"},
+	"contactql.Resolver":    {},
+	"flows.SessionAssets":   {"flows/engine"},
 	"envs.LocationResolver": {"envs"},
 }
 
@@ -169,7 +169,9 @@ func checkC09(p *core.Program, r *core.Report) {
 		return true
 	}
 	ec := &effectCtx{p: p, memo: map[*ssa.Function]map[string]string{}, busy: map[*ssa.Function]bool{}, owns: owns,
-		mapType: func(t string) bool { return t == "flows/definition.localization" || t == "flows/definition.languageTranslation" || t == "flows/definition.itemTranslation" },
+		mapType: func(t string) bool {
+			return t == "flows/definition.localization" || t == "flows/definition.languageTranslation" || t == "flows/definition.itemTranslation"
+		},
 		sliceAlias: true, noCallbacks: true}
 
 	// ------------------------------------------------------------------ R1 entry points
